@@ -31,11 +31,11 @@ FAKE_MODULES = {
 }
 
 
-def write_module(root, pkgs, grove_uses_disk=False, go_version="1.22"):
+def write_module(root, pkgs, grove_uses_disk=False, go_version="1.22", module="example.com/m"):
     """pkgs: {relative dir ('' = module root): {filename: content}}"""
     shutil.rmtree(root, ignore_errors=True)
     os.makedirs(root)
-    lines = ["module example.com/m", "", "go " + go_version, "", "require (", "\tgithub.com/goose-lang/goose v0.0.0",
+    lines = ["module " + module, "", "go " + go_version, "", "require (", "\tgithub.com/goose-lang/goose v0.0.0",
              "\tgithub.com/goose-lang/primitive v0.1.0", "\tgithub.com/tchajed/marshal v0.6.1"]
     for m in FAKE_MODULES:
         lines.append("\t%s v0.0.0" % m)
